@@ -81,6 +81,13 @@ def run_task(task):
         deadline = None
         if task.get("time_cap"):
             deadline = time.monotonic() + task["time_cap"]
+        if task.get("deadline_at"):
+            left = task["deadline_at"] - time.time()
+            if left <= 0:
+                res["capped"] = "not started (run budget)"
+                res["wall"] = 0.0
+                return res
+            deadline = min(deadline, time.monotonic() + left) if deadline else time.monotonic() + left
         ex = Explorer(mw, budget=tuple(task.get("budget", (0, 0))), cache=task.get("cache", True),
                       max_exec=task.get("max_exec"), deadline=deadline, on_execution=on_x,
                       shard=tuple(task["shard"]) if task.get("shard") else None)
@@ -252,6 +259,12 @@ def explore_check(prop, tier, tasks, rule, assumptions, extra_cov=None, level="m
         # caps_hit and makes the run non-exhaustive (never silently)
         for t in tasks:
             t.setdefault("time_cap", cap)
+    budget = float(os.environ.get("JMC_RUN_BUDGET", "2700" if tier == "thorough" else "0"))
+    if budget:
+        # ... and the whole run has a wall-clock budget: tasks that cannot start before it ends are
+        # reported as "not started (run budget)" in caps_hit
+        for t in tasks:
+            t["deadline_at"] = time.time() + budget
     tot = dict(executions=0, states=0, transitions=0, pruned=0, nontrivial=0)
     outcomes = set()
     violations = []
